@@ -3,6 +3,7 @@ package checks
 import (
 	"fmt"
 	"math/rand"
+	"sort"
 	"strings"
 	"time"
 
@@ -371,12 +372,86 @@ func execC17(ctx *core.Ctx, c *c17Case) {
 		}
 		viol(out.Kind, out.Detail, out.Attrs)
 	}
+	if out.Kind == "" && c.NGroups >= 2 {
+		// "Rows of other groups neither trigger nor contribute": a group fed alone must fire at exactly the
+		// rows, and over exactly the rows, at which it fired in the mixed stream - also where the predicate is
+		// UNKNOWN (an aggregate without a non-NULL input) and the reference therefore follows the engine.
+		if kind, detail := c17Isolation(ctx, c, ref, rec.Deliveries()); kind != "" {
+			viol(kind, detail, nil)
+			out.Kind = kind
+		}
+	}
 	nontrivial := out.Kind == "" && out.Fires >= 2 && (out.Refired || out.GroupsFired >= 2) && out.FalseRows > 0
 	var sample any
 	if c.Index < 3 {
 		sample = map[string]any{"sql": c.SQL, "rows": len(c.Rows), "groups": c.NGroups, "fires": out.Fires, "first_rows": c.Rows[:min(3, len(c.Rows))]}
 	}
 	ctx.Case(c.SQL+core.J(c.Rows), nontrivial, sample)
+}
+
+// c17Fires lists, per group key, the id lists of its fires in delivery order.
+func c17Fires(c *c17Case, dels []eng.Delivery) map[string][]string {
+	out := map[string][]string{}
+	for _, d := range dels {
+		for _, res := range d.Rows {
+			parts := make([]string, len(c.OutCols))
+			for i, oc := range c.OutCols {
+				parts[i] = tkey(res[oc])
+			}
+			gk := strings.Join(parts, "\x01")
+			ids, _ := idList(res["ids"])
+			out[gk] = append(out[gk], idsStr(ids))
+		}
+	}
+	return out
+}
+
+func c17Isolation(ctx *core.Ctx, c *c17Case, ref *c17Ref, dels []eng.Delivery) (kind, detail string) {
+	mixed := c17Fires(c, dels)
+	gks := make([]string, 0, len(ref.groups))
+	for gk := range ref.groups {
+		gks = append(gks, gk)
+	}
+	sort.Strings(gks)
+	if len(gks) > 2 {
+		gks = gks[:2]
+	}
+	for _, gk := range gks {
+		s, err := eng.New(c.SQL, eng.Opts{})
+		if err != nil {
+			return "", ""
+		}
+		rec := eng.Attach(s)
+		n := 0
+		for _, row := range c.Rows {
+			if id, ok := toI(row["id"]); !ok || ref.owner[int(id)] != gk {
+				continue
+			}
+			cp := make(Row, len(row))
+			for k, v := range row {
+				cp[k] = v
+			}
+			rec.Emit(cp)
+			n++
+		}
+		want := mixed[gk]
+		if !rec.WaitDeliveries(len(want), 2*time.Second) || !rec.Quiesce(2, 2*time.Millisecond, 2*time.Second) {
+			rec.Quiesce(3, 250*time.Millisecond, 20*time.Second)
+		}
+		solo := c17Fires(c, rec.Deliveries())[gk]
+		over := rec.Overloaded()
+		s.Stop()
+		if over {
+			ctx.Inconclusive("isolation re-run: engine declared overload")
+			continue
+		}
+		ctx.Count("isolation.groups_refed_alone", 1)
+		ctx.Count("isolation.fires_compared", int64(len(want)))
+		if strings.Join(solo, ";") != strings.Join(want, ";") {
+			return "global.other_groups_influence", fmt.Sprintf("group %q fires over rows %v when its %d rows are mixed with the other groups' rows, but over %v when the same rows are fed alone: other groups' rows triggered or suppressed a fire", gk, want, n, solo)
+		}
+	}
+	return "", ""
 }
 
 // c17Wait waits until `expect` deliveries were recorded, or gives up early once the sink log has not
